@@ -49,7 +49,7 @@ def case(draw):
     kind = draw(st.sampled_from(["int", "int", "bool", "string", "float"]))
     op = draw(st.sampled_from(["at", "at", "set"]))
     delivery = draw(st.sampled_from(["function", "loop", "global", "arith"]))
-    place = draw(st.sampled_from(["statement", "operand", "callee", "loop_k"]))
+    place = draw(st.sampled_from(["statement", "operand", "callee", "loop_k", "global_init"]))
     return {"n": n, "idx": idx, "kind": kind, "op": op, "delivery": delivery, "place": place, "inrange": 0 <= idx < n}
 
 
@@ -71,6 +71,15 @@ def build(c, shadow=False):
     else:
         ie = "ix"
     show = lambda e: ("(println (== %s %s))" % (e, lit(idx if c["inrange"] else 0))) if kind == "float" else "(println %s)" % e
+    if c["place"] == "global_init" and not shadow:
+        # the access is the initialiser of a top-level let: it runs before main (or at compile time for nanoc), and a
+        # fault there must stop the program as well
+        gie = "(getidx)" if c["delivery"] == "loop" else ie
+        L.append("let GA: array<%s> = [%s]" % (tname, elems))
+        L.append("let GV: %s = (at GA %s)" % (tname, gie))
+        L.append("fn main() -> int {\n    (print \"AFTER \")\n    %s\n    return 0\n}\nshadow main { assert true }" % show("GV"))
+        expect = ("AFTER " + ("true" if kind == "float" else shown(idx))) if c["inrange"] else None
+        return "\n".join(L) + "\n", expect
     access = []
     if c["op"] == "at":
         if c["place"] == "operand" and kind == "int":
